@@ -245,6 +245,14 @@ def child_main(spec_file, out_file):
     out = {'status': 'ok'}
     ctx = None
     cov = None
+    try:
+        # a shard that grows without bound (changed library code that keeps state it should not) ends with a MemoryError,
+        # not with the machine swapping under sixteen of them
+        import resource
+        lim = int(float(os.environ.get('VERIF_SHARD_MEMORY_GB', '6')) * 2 ** 30)
+        resource.setrlimit(resource.RLIMIT_AS, (lim, lim))
+    except Exception:
+        pass
     if os.environ.get('VERIF_COVERAGE_DIR'):
         # development aid (tools/coverage_map.sh): which lines of the repository the workloads of a check reach
         import coverage
@@ -287,6 +295,11 @@ def child_main(spec_file, out_file):
         shutil.rmtree(tmp, ignore_errors=True)
     if ctx is not None:
         out['result'] = ctx.result()
+        try:
+            import resource
+            out['result']['maxima']['shard_peak_memory_mb'] = (resource.getrusage(resource.RUSAGE_SELF).ru_maxrss // 1024, 'shard %s' % shard)
+        except Exception:
+            pass
     with open(out_file, 'w') as f:
         json.dump(out, f)
 
